@@ -25,7 +25,7 @@ theorem exitState_noInt (c : Cfg) : NoInt c (exitState c) := by
       by_cases hiw : wf = i
       · subst hiw
         have hlt : wf < c.wfs.length := (List.getElem?_eq_some_iff.mp hp).1
-        simp [setAt, List.getElem?_set, hlt] at hi
+        simp [setAt, hlt] at hi
       · simpa [setAt, List.getElem?_set, hiw] using hi
     · exact NoInt.of_eq rfl
   · exact NoInt.of_eq rfl
